@@ -1,80 +1,84 @@
 use crate::fw::*;
-#[cfg(not(feature = "slim"))]
+#[cfg(all(not(feature = "slim"), any(not(feature = "single"), feature = "p01")))]
 pub mod c01;
-#[cfg(not(feature = "slim"))]
+#[cfg(all(not(feature = "slim"), any(not(feature = "single"), feature = "p02")))]
 pub mod c02;
-#[cfg(not(feature = "slim"))]
+#[cfg(all(not(feature = "slim"), any(not(feature = "single"), feature = "p03")))]
 pub mod c03;
-#[cfg(not(feature = "slim"))]
+#[cfg(all(not(feature = "slim"), any(not(feature = "single"), feature = "p04")))]
 pub mod c04;
-#[cfg(not(feature = "slim"))]
+#[cfg(all(not(feature = "slim"), any(not(feature = "single"), feature = "p05")))]
 pub mod c05;
-#[cfg(not(feature = "slim"))]
+#[cfg(all(not(feature = "slim"), any(not(feature = "single"), feature = "p07")))]
 pub mod c07;
+#[cfg(any(not(feature = "single"), feature = "p08"))]
 pub mod c08;
-#[cfg(not(feature = "slim"))]
+#[cfg(all(not(feature = "slim"), any(not(feature = "single"), feature = "p09")))]
 pub mod c09;
-#[cfg(not(feature = "slim"))]
+#[cfg(all(not(feature = "slim"), any(not(feature = "single"), feature = "p10")))]
 pub mod c10;
-#[cfg(not(feature = "slim"))]
+#[cfg(all(not(feature = "slim"), any(not(feature = "single"), feature = "p11")))]
 pub mod c11;
-#[cfg(not(feature = "slim"))]
+#[cfg(all(not(feature = "slim"), any(not(feature = "single"), feature = "p12")))]
 pub mod c12;
-#[cfg(not(feature = "slim"))]
+#[cfg(all(not(feature = "slim"), any(not(feature = "single"), feature = "p13")))]
 pub mod c13;
-#[cfg(not(feature = "slim"))]
+#[cfg(all(not(feature = "slim"), any(not(feature = "single"), feature = "p14")))]
 pub mod c14;
-#[cfg(not(feature = "slim"))]
+#[cfg(all(not(feature = "slim"), any(not(feature = "single"), feature = "p15")))]
 pub mod c15;
+#[cfg(any(not(feature = "single"), feature = "p16"))]
 pub mod c16;
-#[cfg(not(feature = "slim"))]
+#[cfg(all(not(feature = "slim"), any(not(feature = "single"), feature = "p17")))]
 pub mod c17;
-#[cfg(not(feature = "slim"))]
+#[cfg(all(not(feature = "slim"), any(not(feature = "single"), feature = "p18")))]
 pub mod c18;
-#[cfg(not(feature = "slim"))]
+#[cfg(all(not(feature = "slim"), any(not(feature = "single"), feature = "p19")))]
 pub mod c19;
-#[cfg(not(feature = "slim"))]
+#[cfg(all(not(feature = "slim"), any(not(feature = "single"), feature = "p20")))]
 pub mod c20;
 
 pub fn run(prop: &str, tier: Tier) -> Report {
     match prop {
-        #[cfg(not(feature = "slim"))]
+        #[cfg(all(not(feature = "slim"), any(not(feature = "single"), feature = "p01")))]
         "C01" => c01::run(tier),
-        #[cfg(not(feature = "slim"))]
+        #[cfg(all(not(feature = "slim"), any(not(feature = "single"), feature = "p02")))]
         "C02" => c02::run(tier),
-        #[cfg(not(feature = "slim"))]
+        #[cfg(all(not(feature = "slim"), any(not(feature = "single"), feature = "p03")))]
         "C03" => c03::run(tier),
-        #[cfg(not(feature = "slim"))]
+        #[cfg(all(not(feature = "slim"), any(not(feature = "single"), feature = "p04")))]
         "C04" => c04::run(tier),
-        #[cfg(not(feature = "slim"))]
+        #[cfg(all(not(feature = "slim"), any(not(feature = "single"), feature = "p05")))]
         "C05" => c05::run(tier),
-        #[cfg(not(feature = "slim"))]
+        #[cfg(all(not(feature = "slim"), any(not(feature = "single"), feature = "p06")))]
         "C06" => c05::run_c06(tier),
-        #[cfg(not(feature = "slim"))]
+        #[cfg(all(not(feature = "slim"), any(not(feature = "single"), feature = "p07")))]
         "C07" => c07::run(tier),
-        #[cfg(not(feature = "slim"))]
+        #[cfg(all(not(feature = "slim"), any(not(feature = "single"), feature = "p09")))]
         "C09" => c09::run(tier),
-        #[cfg(not(feature = "slim"))]
+        #[cfg(all(not(feature = "slim"), any(not(feature = "single"), feature = "p10")))]
         "C10" => c10::run(tier),
-        #[cfg(not(feature = "slim"))]
+        #[cfg(all(not(feature = "slim"), any(not(feature = "single"), feature = "p11")))]
         "C11" => c11::run(tier),
-        #[cfg(not(feature = "slim"))]
+        #[cfg(all(not(feature = "slim"), any(not(feature = "single"), feature = "p12")))]
         "C12" => c12::run(tier),
-        #[cfg(not(feature = "slim"))]
+        #[cfg(all(not(feature = "slim"), any(not(feature = "single"), feature = "p13")))]
         "C13" => c13::run(tier),
-        #[cfg(not(feature = "slim"))]
+        #[cfg(all(not(feature = "slim"), any(not(feature = "single"), feature = "p14")))]
         "C14" => c14::run(tier),
-        #[cfg(not(feature = "slim"))]
+        #[cfg(all(not(feature = "slim"), any(not(feature = "single"), feature = "p15")))]
         "C15" => c15::run(tier),
+        #[cfg(any(not(feature = "single"), feature = "p08"))]
         "C08" => c08::run(tier),
+        #[cfg(any(not(feature = "single"), feature = "p16"))]
         "C16" => c16::run(tier),
-        #[cfg(not(feature = "slim"))]
+        #[cfg(all(not(feature = "slim"), any(not(feature = "single"), feature = "p17")))]
         "C17" => c17::run(tier),
-        #[cfg(not(feature = "slim"))]
+        #[cfg(all(not(feature = "slim"), any(not(feature = "single"), feature = "p18")))]
         "C18" => c18::run(tier),
-        #[cfg(not(feature = "slim"))]
+        #[cfg(all(not(feature = "slim"), any(not(feature = "single"), feature = "p19")))]
         "C19" => c19::run(tier),
-        #[cfg(not(feature = "slim"))]
+        #[cfg(all(not(feature = "slim"), any(not(feature = "single"), feature = "p20")))]
         "C20" => c20::run(tier),
         _ => {
             eprintln!("unknown property {prop}");
@@ -84,43 +88,45 @@ pub fn run(prop: &str, tier: Tier) -> Report {
 }
 pub fn replay(prop: &str, _tier: Tier, case: &serde_json::Value) -> Vec<Violation> {
     match prop {
-        #[cfg(not(feature = "slim"))]
+        #[cfg(all(not(feature = "slim"), any(not(feature = "single"), feature = "p01")))]
         "C01" => c01::replay(case),
-        #[cfg(not(feature = "slim"))]
+        #[cfg(all(not(feature = "slim"), any(not(feature = "single"), feature = "p02")))]
         "C02" => c02::replay(case),
-        #[cfg(not(feature = "slim"))]
+        #[cfg(all(not(feature = "slim"), any(not(feature = "single"), feature = "p03")))]
         "C03" => c03::replay(case),
-        #[cfg(not(feature = "slim"))]
+        #[cfg(all(not(feature = "slim"), any(not(feature = "single"), feature = "p04")))]
         "C04" => c04::replay(case),
-        #[cfg(not(feature = "slim"))]
+        #[cfg(all(not(feature = "slim"), any(not(feature = "single"), feature = "p05")))]
         "C05" => c05::replay(case),
-        #[cfg(not(feature = "slim"))]
+        #[cfg(all(not(feature = "slim"), any(not(feature = "single"), feature = "p06")))]
         "C06" => c05::replay_c06(case),
-        #[cfg(not(feature = "slim"))]
+        #[cfg(all(not(feature = "slim"), any(not(feature = "single"), feature = "p07")))]
         "C07" => c07::replay(case),
-        #[cfg(not(feature = "slim"))]
+        #[cfg(all(not(feature = "slim"), any(not(feature = "single"), feature = "p09")))]
         "C09" => c09::replay(case),
-        #[cfg(not(feature = "slim"))]
+        #[cfg(all(not(feature = "slim"), any(not(feature = "single"), feature = "p10")))]
         "C10" => c10::replay(case),
-        #[cfg(not(feature = "slim"))]
+        #[cfg(all(not(feature = "slim"), any(not(feature = "single"), feature = "p11")))]
         "C11" => c11::replay(case),
-        #[cfg(not(feature = "slim"))]
+        #[cfg(all(not(feature = "slim"), any(not(feature = "single"), feature = "p12")))]
         "C12" => c12::replay(case),
-        #[cfg(not(feature = "slim"))]
+        #[cfg(all(not(feature = "slim"), any(not(feature = "single"), feature = "p13")))]
         "C13" => c13::replay(case),
-        #[cfg(not(feature = "slim"))]
+        #[cfg(all(not(feature = "slim"), any(not(feature = "single"), feature = "p14")))]
         "C14" => c14::replay(case),
-        #[cfg(not(feature = "slim"))]
+        #[cfg(all(not(feature = "slim"), any(not(feature = "single"), feature = "p15")))]
         "C15" => c15::replay(case),
+        #[cfg(any(not(feature = "single"), feature = "p08"))]
         "C08" => c08::replay(case),
+        #[cfg(any(not(feature = "single"), feature = "p16"))]
         "C16" => c16::replay(case),
-        #[cfg(not(feature = "slim"))]
+        #[cfg(all(not(feature = "slim"), any(not(feature = "single"), feature = "p17")))]
         "C17" => c17::replay(case),
-        #[cfg(not(feature = "slim"))]
+        #[cfg(all(not(feature = "slim"), any(not(feature = "single"), feature = "p18")))]
         "C18" => c18::replay(case),
-        #[cfg(not(feature = "slim"))]
+        #[cfg(all(not(feature = "slim"), any(not(feature = "single"), feature = "p19")))]
         "C19" => c19::replay(case),
-        #[cfg(not(feature = "slim"))]
+        #[cfg(all(not(feature = "slim"), any(not(feature = "single"), feature = "p20")))]
         "C20" => c20::replay(case),
         _ => {
             eprintln!("unknown property {prop}");
@@ -130,15 +136,17 @@ pub fn replay(prop: &str, _tier: Tier, case: &serde_json::Value) -> Vec<Violatio
 }
 pub fn worker(prop: &str, tier: Tier, args: &[String]) -> i32 {
     match prop {
-        #[cfg(not(feature = "slim"))]
+        #[cfg(all(not(feature = "slim"), any(not(feature = "single"), feature = "p03")))]
         "C03" => crate::pool::child(&c03::C03, tier, args),
-        #[cfg(not(feature = "slim"))]
+        #[cfg(all(not(feature = "slim"), any(not(feature = "single"), feature = "p04")))]
         "C04" => crate::pool::child(&c04::C04, tier, args),
-        #[cfg(not(feature = "slim"))]
+        #[cfg(all(not(feature = "slim"), any(not(feature = "single"), feature = "p12")))]
         "C12" => crate::pool::child(&c12::C12, tier, args),
+        #[cfg(any(not(feature = "single"), feature = "p08"))]
         "C08" => crate::pool::child(&c08::C08, tier, args),
+        #[cfg(any(not(feature = "single"), feature = "p16"))]
         "C16" => crate::pool::child(&c16::C16, tier, args),
-        #[cfg(not(feature = "slim"))]
+        #[cfg(all(not(feature = "slim"), any(not(feature = "single"), feature = "p18")))]
         "C18" => crate::pool::child(&c18::C18, tier, args),
         _ => {
             eprintln!("unknown pooled property {prop}");
